@@ -66,9 +66,21 @@ class SerialGateway:
         self._tx_id = 0
         self._last_due = 0.0
 
+    mute_after_bytes = None
+    cut = False
+
     def emit(self, chunk, lat_name):
         due = max(self._last_due, self.sim.loop.time()) + self.sim.latency(lat_name)
         self._last_due = due
+        if self.cut:
+            return
+        if self.mute_after_bytes is not None:
+            # cable pulled / gateway reset while it was talking: the head of this packet is the last thing heard
+            chunk = chunk[:max(1, min(self.mute_after_bytes, len(chunk) - 1))]
+            self.mute_after_bytes = None
+            self.mute = True
+            self.cut = True
+            self.truncated = chunk
         self.pending.append((due, chunk))
 
     def outcome(self, bits, value):
